@@ -8,7 +8,8 @@
  * Every case of the file must have the same (ranks, threads, sched, window, threshold): the
  * plugin groups the cases, one MPI job per group (checks/C17.py).  Every rank parses the same
  * cases and inserts the same sequence (DTD requires it); after each case the ranks' observations
- * are merged with MPI_Reduce and rank 0 appends ONE line per case to <outfile>.
+ * are merged with MPI_Reduce and rank 0 appends ONE line per case to <outfile> (after a line "#ready"
+ * written when MPI and PaRSEC are initialised).
  *
  * case line:
  *   dtdflush <ranks> <ndata> <threads> <sched> <window> <threshold> <spin> <owners> | <item> ; <item> ; ...
@@ -299,6 +300,7 @@ int main(int argc, char **argv) {
         if (!started) {
             if (!ctx_init(&C)) { if (out) { fprintf(out, "<parsec_init failed>\n"); fflush(out); } MPI_Abort(MPI_COMM_WORLD, 3); }
             started = 1;
+            if (out) { fprintf(out, "#ready\n"); fflush(out); }     /* start-up is not charged to the first case */
         }
         int nsnap = 0;
         const char *err = run_case(&nsnap);
